@@ -1,1 +1,2 @@
 import Driver.Core
+import Driver.Order
